@@ -22,6 +22,8 @@ def run(ctx):
     for which in ('owned', 'borrowed'):
         t = comparator_tables(ctx, which)
         if t is None:
+            # fail closed: nothing about the order can be decided without the pair table
+            ctx.anchor(False, 'pair table of the %s comparator (Ord::cmp of the term type, with a rank function or an evaluable rank comparison)' % which)
             return
         tabs[which] = t
     # ---------------- clause 1: rank table ---------------------------------------------------------
@@ -307,6 +309,25 @@ def run(ctx):
             if ctx.F.bodies[q]['crate'] == 'erltf' and q not in seen12:
                 seen12.add(q)
                 _cc12(ctx, P.B(q), 'C12.2-nothing-narrowed', include_float=False)
+    # a checked conversion is no better when its failure is turned into an answer: u64 -> i64 of a MAGNITUDE fails for 2^63, which is the
+    # magnitude of i64::MIN - a negative big integer of that magnitude is an i64 and must compare Equal to it
+    n_tf = 0
+    for q in sorted(seen12):
+        XB = P.B(q)
+        if not any('BigInt' in (l_.get('ty') or '') for l_ in XB.b['locals'][1:XB.b.get('argc', 0) + 1]):
+            continue
+        for bb, t in XB.calls():
+            nm = callee_of(t)[1] or callee_of(t)[0] or ''
+            if nm.endswith('TryFrom<u64> for i64>::try_from') or nm.endswith('TryInto<i64> for u64>::try_into'):
+                n_tf += 1
+                has_min_case = any(st['k'] == '=' and st['rv']['k'] == 'bin' and st['rv'].get('ty') == 'u64' and any(o_.get('k') == 'c' and o_.get('v') == 2 ** 63 for o_ in (st['rv']['a'], st['rv']['b']))
+                                   for b2, j2, st in XB.stmts())
+                if has_min_case:
+                    ctx.ok('C12.2-nothing-narrowed', '%s:magnitude-as-i64' % q.rsplit('::', 1)[1], 'magnitude converted to i64 with the 2^63 case handled separately', ctx.where(XB, bb))
+                else:
+                    ctx.bad('C12.2-nothing-narrowed', '%s:magnitude-as-i64' % q.rsplit('::', 1)[1], 'the 64-bit magnitude of a big integer is converted to i64 with try_from and the failure decides the comparison: '
+                            'magnitude 2^63 does not fit, so the big integer -2^63 no longer compares Equal to Integer(i64::MIN) (and sorts as if it were below every i64)', ctx.where(XB, bb),
+                            key='CAST:%s:magnitude-to-i64' % q.split('::{')[0])
     # (how many narrowing casts the path contains is a matter of style - wrapping_neg() as u64 or unsigned_abs(); the scan itself is the instance)
     if ctx.anchor(len(seen12) >= 10, 'comparison path of the two Ord impls (at least ten erltf functions)'):
         ctx.ok('C12.2-nothing-narrowed', 'scope', 'every integer cast in the %d erltf functions on the comparison path was examined' % len(seen12))
